@@ -634,6 +634,100 @@ def r8(ctx, r):
         r.expect(len(lb) == 1, g, None, "%s length" % nm, "%s does not require exactly %d bytes" % (nm, want), okdesc="%s: rdata.size() == %d" % (nm, want))
 
 
+def field_reads(f, prefix):
+    """ordered [(target text, reader, offset expression text)] of `target = readUintNN(buf, off)` assignments in source order"""
+    out = []
+    for e in sorted(f.stmts(), key=lambda e: (e.line, e.idx)):
+        a = asg(e.node)
+        if not a or "root" not in e.raw:
+            continue
+        lt = show(strip_casts(a[0]))
+        if not lt.startswith(prefix):
+            continue
+        rd = [x for x in walk(a[1]) if x.get("k") in ("call", "mcall") and last(x.get("callee", "")) in ("readUint16", "readUint32")]
+        if len(rd) == 1:
+            out.append((lt, last(rd[0]["callee"]), show(rd[0]["args"][1])))
+    return out
+
+
+def r9(ctx, r):
+    """wire layout tables: which field is read with which width, in which order / at which RDATA offset"""
+    W16, W32 = "readUint16", "readUint32"
+    for npar in (4, 5):
+        f = dm(ctx, "parseResourceRecord", npar)
+        got = [(t, w) for (t, w, o) in field_reads(f, "rr.")]
+        r.instance()
+        r.expect(got == [("rr.type", W16), ("rr.cls", W16), ("rr.ttl", W32), ("rr.rdlength", W16)], f, None, "record header layout", "parseResourceRecord/%d reads the fixed part as %s (RFC 1035 4.1.3: TYPE16 CLASS16 TTL32 RDLENGTH16)" % (npar, got),
+                 okdesc="TYPE16, CLASS16, TTL32, RDLENGTH16")
+        # each read is followed by an advance of its own width before the next read
+        advs = [const_value(strip_casts(e.node["rhs"])) for e in sorted(f.stmts(), key=lambda e: (e.line, e.idx)) if e.node.get("k") == "bin" and e.node.get("op") == "+=" and key_of(e.node["lhs"]) == "offset" and const_value(strip_casts(e.node["rhs"])) is not None]
+        r.instance()
+        r.expect(advs == [2, 2, 4, 2], f, None, "record header advances", "the cursor advances by %s between the fixed fields (expected 2, 2, 4, 2)" % advs, okdesc="advances 2, 2, 4, 2")
+    q = dm(ctx, "parseQuestion")
+    got = [(t, w) for (t, w, o) in field_reads(q, "question.")]
+    r.instance()
+    r.expect(got == [("question.qtype", W16), ("question.qclass", W16)], q, None, "question layout", "parseQuestion reads %s (expected QTYPE16 QCLASS16)" % got, okdesc="QTYPE16, QCLASS16")
+    h = dm(ctx, "parseHeader")
+    got = [(t, w) for (t, w, o) in field_reads(h, "header.")]
+    r.instance()
+    r.expect(got == [("header.id", W16), ("header.qdcount", W16), ("header.ancount", W16), ("header.nscount", W16), ("header.arcount", W16)], h, None, "header layout", "parseHeader reads %s" % got, okdesc="ID, QDCOUNT, ANCOUNT, NSCOUNT, ARCOUNT as 16-bit fields in order")
+    # flag bits
+    want = {"header.qr": (0x8000, None), "header.aa": (0x0400, None), "header.tc": (0x0200, None), "header.rd": (0x0100, None), "header.ra": (0x0080, None), "header.opcode": (0x0F, 11), "header.z": (0x07, 4), "header.rcode": (0x0F, None)}
+    for e in h.stmts():
+        a = asg(e.node)
+        if not a:
+            continue
+        lt = show(strip_casts(a[0]))
+        if lt in want:
+            masks = [const_value(strip_casts(x["rhs"])) for x in walk(a[1]) if x.get("k") == "bin" and x.get("op") == "&"]
+            shifts = [const_value(strip_casts(x["rhs"])) for x in walk(a[1]) if x.get("k") == "bin" and x.get("op") == ">>"]
+            r.instance()
+            m, sh = want[lt]
+            r.expect(masks == [m] and (shifts == [sh] if sh is not None else not shifts) and "flags" in show(a[1]), h, e, "flag field %s" % lt, "%s is extracted with mask %s shift %s (expected mask %#x%s)" % (lt, masks, shifts, m, ", shift %d" % sh if sh else ""),
+                     okdesc="%s: mask %#x%s" % (lt, m, ", >> %d" % sh if sh else ""))
+            want[lt] = None
+    r.instance()
+    r.expect(all(v is None for v in want.values()), h, None, "flag fields", "parseHeader does not extract %s" % [k for k, v in want.items() if v is not None], okdesc="all eight flag fields extracted")
+    # typed records: fixed RDATA offsets
+    tables = {
+        "parseSrvRecord": [("record.priority", W16, "0"), ("record.weight", W16, "2"), ("record.port", W16, "4")],
+        "parseMxRecord": [("record.preference", W16, "0")],
+    }
+    for nm, exp in tables.items():
+        f = dm(ctx, nm)
+        got = field_reads(f, "record.")
+        r.instance()
+        r.expect(got == exp, f, None, "%s layout" % nm, "%s reads %s (expected %s)" % (nm, got, exp), okdesc="%s: %s" % (nm, ", ".join("%s@%s" % (t.split(".")[1], o) for t, w, o in exp)))
+    nmo = [v for e in dm(ctx, "parseSrvRecord").stmts() if e.node.get("k") == "decl" for v in e.node["vars"] if v["n"] == "nameOffset"]
+    r.instance()
+    r.expect(len(nmo) == 1 and const_value(strip_casts(nmo[0].get("init") or {})) == 6, dm(ctx, "parseSrvRecord"), None, "SRV target offset", "the SRV target name does not start at RDATA offset 6", okdesc="SRV target @6")
+    nmo = [v for e in dm(ctx, "parseMxRecord").stmts() if e.node.get("k") == "decl" for v in e.node["vars"] if v["n"] == "nameOffset"]
+    r.instance()
+    r.expect(len(nmo) == 1 and const_value(strip_casts(nmo[0].get("init") or {})) == 2, dm(ctx, "parseMxRecord"), None, "MX exchange offset", "the MX exchange name does not start at RDATA offset 2", okdesc="MX exchange @2")
+    soa = dm(ctx, "parseSoaRecord")
+    got = [(t, w) for (t, w, o) in field_reads(soa, "record.")]
+    r.instance()
+    r.expect(got == [("record.serial", W32), ("record.refresh", W32), ("record.retry", W32), ("record.expire", W32), ("record.minimum", W32)], soa, None, "SOA layout", "parseSoaRecord reads %s (expected SERIAL REFRESH RETRY EXPIRE MINIMUM as 32-bit fields)" % got,
+             okdesc="SOA: five 32-bit fields in order")
+    advs = [const_value(strip_casts(e.node["rhs"])) for e in sorted(soa.stmts(), key=lambda e: (e.line, e.idx)) if e.node.get("k") == "bin" and e.node.get("op") == "+=" and key_of(e.node["lhs"]) == "offset" and const_value(strip_casts(e.node["rhs"])) is not None]
+    r.instance()
+    r.expect(advs == [4, 4, 4, 4], soa, None, "SOA advances", "the SOA numeric fields are not 4 bytes apart (%s)" % advs, okdesc="SOA fields 4 bytes apart")
+    nap = dm(ctx, "parseNaptrRecord")
+    got = [(t, w) for (t, w, o) in field_reads(nap, "record.")]
+    r.instance()
+    r.expect(got == [("record.order", W16), ("record.preference", W16)], nap, None, "NAPTR layout", "parseNaptrRecord reads %s" % got, okdesc="NAPTR: ORDER16, PREFERENCE16")
+    strs = [show(e.node["args"][-1]) for e in sorted(nap.stmts(), key=lambda e: (e.line, e.idx)) if e.node.get("k") == "opcall" and e.node.get("op") == "()" and key_of(e.node["args"][0]) == "parseString"]
+    r.instance()
+    r.expect(strs == ["record.flags", "record.service", "record.regexp"], nap, None, "NAPTR strings", "the NAPTR character-strings are decoded into %s (expected flags, service, regexp)" % strs, okdesc="NAPTR: flags, service, regexp")
+    # readers are big-endian (network order)
+    for nm, conv in (("readUint16", "ntohs"), ("readUint32", "ntohl")):
+        f = dm(ctx, nm)
+        r.instance()
+        r.expect(any(x.node.get("k") == "ret" and conv in show(x.node) or (x.node.get("k") == "ret" and "__bswap" in show(x.node)) for x in f.stmts()) or any(conv in show(x.node) for x in f.stmts()), f, None, "byte order: %s" % nm,
+                 "%s does not convert from network byte order" % nm, okdesc="%s: %s" % (nm, conv))
+
+
+
 def anchors(ctx, r):
     fb = ctx.fb()
     tab = [(dm(ctx, "parseHeader"), ["offset", "size", "data"]), (dm(ctx, "parseQuestion"), ["offset", "size", "data"]), (dm(ctx, "parseResourceRecord", 5), ["offset", "size", "data", "rr"]),
@@ -659,4 +753,5 @@ def run(ctx, ck):
     ck.run_rule("C19-R5", "cache key = (case-folded name, type, class), built only through fromQuestion", "A10", lambda r: r5(ctx, r))
     ck.run_rule("C19-R6", "expiry checked on every hit; fresh expiration stored on every set; minimum TTL over every record collection; zero TTL not cached", "A2 + A10 table agreement", lambda r: r6(ctx, r))
     ck.run_rule("C19-R7", "encoder limits; query layout matches the decoder", "A2", lambda r: r7(ctx, r))
+    ck.run_rule("C19-R9", "wire layout tables: field widths, order, flag masks, typed-record offsets, byte order", "A10 table extraction", lambda r: r9(ctx, r))
     ck.run_rule("C19-R8", "RDATA of A/AAAA/TXT is opaque: no rejection by byte content", "A10", lambda r: r8(ctx, r))
